@@ -113,7 +113,7 @@ class CFBlackScholes:
             or spot < CFBlackScholes.eps
             or maturity < CFBlackScholes.eps
         ):
-            intrinsic = np.array([1 if fwd > k else 0 for k in strike])
+            intrinsic = np.where(fwd > np.asarray(strike), 1, 0)
             return df * intrinsic
 
         stddev = sigma * np.sqrt(maturity)
